@@ -57,10 +57,20 @@ theorem keys_do_not_alias (k1 k2 : Key) (h1 : KeyOk k1 = true) (h2 : KeyOk k2 = 
 theorem colon_keys_alias :
     get (set [] [97, 58, 98] [1]).1 [97, 98] = .val [1] ∧ KeyOk [97, 58, 98] = false := by decide
 
-/-- why `KeyOk` excludes the reserved temporary form: writing "k" goes through the file "k.tmp" -/
-theorem temp_keys_alias :
-    get (set (set [] [107, 46, 116, 109, 112] [1]).1 [107] [2]).1 [107, 46, 116, 109, 112] = .err ∧
-      KeyOk [107, 46, 116, 109, 112] = false := by decide
+/-- Keys of the reserved temporary form (file name ending in ".tmp"; writing "k" goes through the file "k.tmp") are
+    REFUSED by every operation, for every directory and value, and nothing changes (F21 repair; before it,
+    `Set "k"` silently destroyed the value of a key named "k.tmp"). So `KeyOk` excludes them from the map
+    statements not because they misbehave but because they are never stored. -/
+theorem reserved_keys_refused (d : Dir) (k : Key) (v : Bytes) (h : isTempName (fileName k) = true) :
+    set d k v = (d, .err) ∧ get d k = .err ∧ delete d k = (d, .err) := by
+  simp [Storage.set, Storage.get, Storage.delete, h]
+
+/-- … and a listing never shows a temporary sibling (e.g. one left behind by a crash, C19) as a key -/
+theorem listing_hides_temporaries (d : Dir) (s : Bytes) (l : List Name) (n : Name)
+    (h : keysWithSuffix d s = .keys l) (hn : n ∈ l) : isTempName (stripColon n) = false := by
+  simp only [keysWithSuffix, Res.keys.injEq] at h
+  subst h
+  simpa using (List.mem_filter.1 hn).2
 
 /-- For EVERY name (arbitrary bytes): the entity key `hex name ++ ".entity"` is a `KeyOk` key when the
     name has at most 122 bytes (file name + ".tmp" within NAME_MAX), and `toEntityKey` is injective
